@@ -62,37 +62,124 @@ def kvOf (toks : List String) (key : String) : Option Int :=
   | some t => (t.drop (key.length + 1)).toString.toInt?
   | none => none
 
+/-- the numbers of one observation line (indices: -1 = empty stack) -/
+structure Obs where
+  ticks : Int
+  maxcsp : Int
+  maxsp : Int
+  csp : Int
+  sp : Int
+  maxtouch : Int := -1     -- highest value-stack slot at or above StackSize that was written (-1: none)
+  cost0 : Int := 0         -- eval_cost when the evaluation started (0: not reported)
+  completed : Bool := false  -- the evaluation returned to the driver normally (`r ret`)
+  deriving Repr
+
+/-- judge the numbers of one evaluation (the clause-level core of the oracle: `model_satisfies_spec` is about this
+    function applied to the numbers of a model run, the line judge applies it to the parsed `obs` line) -/
+def judgeNums (lim : Limits) (o : Obs) : List String :=
+  (if o.ticks > (if lim.cost > 0 then lim.cost else 0) + (handlerAllowance : Int) * (lim.catchDepth + 2) then
+      (if lim.cost ≤ 0 then [s!"eval-exceeded nonpositive-budget ticks={o.ticks} budget={lim.cost}"]
+       else if lim.hasSafe then [s!"eval-exceeded through-safe-apply ticks={o.ticks} budget={lim.cost}"]
+       else [s!"eval-exceeded ticks={o.ticks} budget={lim.cost}"])
+    else []) ++
+  (if lim.depth > 0 ∧ o.maxcsp > lim.depth - 1 then
+      [s!"depth-exceeded maxcsp={o.maxcsp} depth={lim.depth}"] else []) ++
+  (if lim.stack > 0 ∧ o.maxsp > lim.stack - 1 then
+      [s!"stack-exceeded maxsp={o.maxsp} stack={lim.stack}"] else []) ++
+  -- slots at or above the lowered StackSize that were written at any time (also between two instruction fetches)
+  (if lim.stack > 0 ∧ o.maxtouch > lim.stack - 1 then
+      [s!"stack-exceeded maxtouch={o.maxtouch} stack={lim.stack}"] else []) ++
+  (if o.csp ≠ -1 ∨ o.sp ≠ -1 then
+      (if lim.hasSafe ∧ o.csp = -1 then [s!"not-unwound through-safe-apply sp={o.sp}"]
+       else [s!"not-unwound csp={o.csp} sp={o.sp}"]) else []) ++
+  -- nothing completes after an expiry: a normal return used fewer instructions than the budget it started with
+  (if o.completed = true ∧ o.cost0 > 0 ∧ o.ticks ≥ o.cost0 then
+      [s!"completed-after-expiry ticks={o.ticks} budget={o.cost0}"] else [])
+
 /-- judge the observation line of one evaluation -/
-def judgeObs (lim : Limits) (toks : List String) : List String :=
+def judgeObs (lim : Limits) (completed : Bool) (toks : List String) : List String :=
   let get (k : String) : Int := (kvOf toks k).getD 0
-  let ticks := get "ticks"
-  let allowance : Int := handlerAllowance * (lim.catchDepth + 2)
-  let budget : Int := if lim.cost > 0 then lim.cost else 0
-  let v1 :=
-    if ticks > budget + allowance then
-      if lim.cost ≤ 0 then [s!"eval-exceeded nonpositive-budget ticks={ticks} budget={lim.cost}"]
-      else if lim.hasSafe then [s!"eval-exceeded through-safe-apply ticks={ticks} budget={lim.cost}"]
-      else [s!"eval-exceeded ticks={ticks} budget={lim.cost}"]
-    else []
-  let v2 := if lim.depth > 0 ∧ get "maxcsp" > lim.depth - 1 then
-      [s!"depth-exceeded maxcsp={get "maxcsp"} depth={lim.depth}"] else []
-  let v3 := if lim.stack > 0 ∧ get "maxsp" > lim.stack - 1 then
-      [s!"stack-exceeded maxsp={get "maxsp"} stack={lim.stack}"] else []
-  let v4 := if get "csp" != -1 ∨ get "sp" != -1 then
-      (if lim.hasSafe ∧ get "csp" == -1 then [s!"not-unwound through-safe-apply sp={get "sp"}"]
-       else [s!"not-unwound csp={get "csp"} sp={get "sp"}"]) else []
-  v1 ++ v2 ++ v3 ++ v4
+  judgeNums lim { ticks := get "ticks", maxcsp := get "maxcsp", maxsp := get "maxsp", csp := get "csp", sp := get "sp",
+                  maxtouch := (kvOf toks "maxtouch").getD (-1), cost0 := get "cost0", completed := completed }
+
+/-- the constructors the harness can be asked for (`sz <name> <args>`, harness/mudlib/c04/sizes.c) -/
+inductive Ctor
+  | allocate | aggregate | add_array | add_array_self | slice | explode | explode0 | allocate_buffer
+  | add_buffer | map_insert | map_aggregate | map_add | join | join_eq | join_self | join_num
+  | num_join | repeat_ | implode | replace | replace1 | copy_array | copy_mapping | sort_array
+  | map_array | lower_case | filter_array | unique_array | array_sub | array_and | filter_mapping | map_mapping
+  | keys | values | allocate_mapping | map_compose | map_compose_eq | save_array | save_string | save_mapping
+  | save_nested | copy_nested | restore_nested | restore_array | restore_mapping | regexp | reg_assoc | sprintf_pad
+  | sprintf
+  deriving Repr, DecidableEq
+
+def Ctor.ofName (s : String) : Option Ctor :=
+  match s with
+  | "allocate" => some .allocate
+  | "aggregate" => some .aggregate
+  | "add_array" => some .add_array
+  | "add_array_self" => some .add_array_self
+  | "slice" => some .slice
+  | "explode" => some .explode
+  | "explode0" => some .explode0
+  | "allocate_buffer" => some .allocate_buffer
+  | "add_buffer" => some .add_buffer
+  | "map_insert" => some .map_insert
+  | "map_aggregate" => some .map_aggregate
+  | "map_add" => some .map_add
+  | "join" => some .join
+  | "join_eq" => some .join_eq
+  | "join_self" => some .join_self
+  | "join_num" => some .join_num
+  | "num_join" => some .num_join
+  | "repeat" => some .repeat_
+  | "implode" => some .implode
+  | "replace" => some .replace
+  | "replace1" => some .replace1
+  | "copy_array" => some .copy_array
+  | "copy_mapping" => some .copy_mapping
+  | "sort_array" => some .sort_array
+  | "map_array" => some .map_array
+  | "lower_case" => some .lower_case
+  | "filter_array" => some .filter_array
+  | "unique_array" => some .unique_array
+  | "array_sub" => some .array_sub
+  | "array_and" => some .array_and
+  | "filter_mapping" => some .filter_mapping
+  | "map_mapping" => some .map_mapping
+  | "keys" => some .keys
+  | "values" => some .values
+  | "allocate_mapping" => some .allocate_mapping
+  | "map_compose" => some .map_compose
+  | "map_compose_eq" => some .map_compose_eq
+  | "save_array" => some .save_array
+  | "save_string" => some .save_string
+  | "save_mapping" => some .save_mapping
+  | "save_nested" => some .save_nested
+  | "copy_nested" => some .copy_nested
+  | "restore_nested" => some .restore_nested
+  | "restore_array" => some .restore_array
+  | "restore_mapping" => some .restore_mapping
+  | "regexp" => some .regexp
+  | "reg_assoc" => some .reg_assoc
+  | "sprintf_pad" => some .sprintf_pad
+  | "sprintf" => some .sprintf
+  | _ => none
 
 /-- which limit bounds the result of a constructor -/
-def limitOf (lim : Limits) (ctor : String) : Int :=
-  match ctor with
-  | "allocate" | "aggregate" | "add_array" | "add_array_self" | "slice" | "explode" | "explode0"
-  | "copy_array" | "sort_array" | "map_array" | "filter_array" | "unique_array" | "array_sub" | "array_and"
-  | "keys" | "values" => lim.maxArray
-  | "allocate_buffer" | "add_buffer" => lim.maxBuffer
-  | "map_insert" | "map_aggregate" | "map_add" | "copy_mapping" | "allocate_mapping" | "filter_mapping" | "map_mapping"
-    => lim.maxMapping
+def limitOfC (lim : Limits) : Ctor → Int
+  | .allocate | .aggregate | .add_array | .add_array_self | .slice | .explode | .explode0 | .copy_array | .sort_array | .map_array | .filter_array | .unique_array | .array_sub | .array_and | .keys | .values | .regexp | .reg_assoc | .restore_array => lim.maxArray
+  | .allocate_buffer | .add_buffer => lim.maxBuffer
+  | .map_insert | .map_aggregate | .map_add | .copy_mapping | .allocate_mapping | .filter_mapping | .map_mapping | .map_compose | .map_compose_eq | .restore_mapping => lim.maxMapping
+  -- nesting depths reported by the LPC side: bounded by MAX_SAVE_SVALUE_DEPTH (copy) / by the text length (restore)
+  | .copy_nested => (NV.Gen.C04.maxSaveDepth : Int)
   | _ => lim.maxString
+
+/-- by name, as the line judge needs it (a name that is not a constructor is judged as a string) -/
+def limitOf (lim : Limits) (ctor : String) : Int :=
+  match Ctor.ofName ctor with
+  | some c => limitOfC lim c
+  | none => lim.maxString
 
 /-- result of a mapping operation sequence, `"<flags>:<sizeof>/<nodes>"`: what sizeof () reports is what the mapping
     holds, and that is within the limit (other returned values are not judged) -/
@@ -120,6 +207,7 @@ structure JState where
   pendingEv : Nat := 0            -- `ev` commands whose result line has not been seen
   pendingSz : List String := []   -- constructors of `sz` commands whose result has not been seen (oldest first)
   bad : List String := []
+  lastRet : Bool := false         -- the result line before the `obs` line was `r ret`
 
 def JState.flag (s : JState) (vs : List String) : JState := { s with bad := s.bad ++ vs }
 
@@ -131,11 +219,11 @@ def judgeLine (s : JState) (line : String) : JState :=
     | some k => s.flag (judgeEv [.afterCatch k])
     | none => s.flag [s!"malformed {line}"]
   | ["r", "ret", v] =>
-    let s1 : JState := { s with pendingEv := s.pendingEv - 1 }
+    let s1 : JState := { s with pendingEv := s.pendingEv - 1, lastRet := true }
     s1.flag (judgeMapSeq s.lim v ++ judgeCallbacks s.lim)
-  | "r" :: "ret" :: _ => { s with pendingEv := s.pendingEv - 1 }
-  | "r" :: "err" :: _ => { s with pendingEv := s.pendingEv - 1 }
-  | "obs" :: rest => s.flag (judgeObs s.lim rest)
+  | "r" :: "ret" :: _ => { s with pendingEv := s.pendingEv - 1, lastRet := true }
+  | "r" :: "err" :: _ => { s with pendingEv := s.pendingEv - 1, lastRet := false }
+  | "obs" :: rest => { s with lastRet := false }.flag (judgeObs s.lim s.lastRet rest)
   | ["sz", "err"] => { s with pendingSz := s.pendingSz.drop 1 }
   | ["sz", "ok", n] =>
     match s.pendingSz, n.toInt? with
@@ -144,6 +232,7 @@ def judgeLine (s : JState) (line : String) : JState :=
       let l := limitOf s.lim ctor
       if n > l then s.flag [s!"size-exceeded ctor={ctor} size={n} limit={l}"] else s
     | _, _ => s.flag [s!"malformed {line}"]
+  | "mismatch" :: rest => s.flag [s!"map-count-mismatch {" ".intercalate rest}"]
   | "crash" :: _ => s.flag [s!"crash {line}"]
   | "sanitizer" :: _ => s.flag [s!"sanitizer {line}"]
   | "badcmd" :: _ => s.flag [s!"harness {line}"]
